@@ -200,7 +200,8 @@ theorem C14_read_only_skeleton (S : Sem P O) (st : St P) (ops : List Op) :
 
 /-- **C14.4 (one step).** An operation other than an effective `set_random_seed` keeps the seed
 and advances torch's generator by exactly the total element count of the random calls the model
-lists for it (`stepCalls`, compared call by call with the calls observed in the implementation). -/
+lists for it (`stepCalls`; the harness compares the element TOTAL per operation with what the recorders observe —
+which torch function draws the elements and in which order inside one operation is not compared). -/
 theorem C14_draw_count_step (S : Sem P O) (st : St P) (op : Op) (h : ∀ s', op ≠ .setSeed s' true) :
     (step S st op).1.torchGen = ⟨st.torchGen.seedOf, st.torchGen.pos + stepDraws st op⟩ :=
   step_torchGen S st op h
